@@ -137,7 +137,6 @@ pub struct Proc {
     pub pid: i32,
     pub dir: PathBuf,
     pub console_port: u16,
-    pub sdk_port: u16,
     pub grpc_port: u16,
     child: std::process::Child,
 }
@@ -166,7 +165,9 @@ pub fn spawn_server(root: &Path, idx: usize, attempt: usize) -> Result<Proc, Str
     std::fs::create_dir_all(dir.join("data")).map_err(|e| e.to_string())?;
     let log = std::fs::File::create(dir.join("server.log")).map_err(|e| e.to_string())?;
     let log2 = log.try_clone().map_err(|e| e.to_string())?;
-    let mut cmd = std::process::Command::new(SERVER_BIN);
+    // C18_SERVER_BIN: a server built from a patched copy of the snapshot (mutant runs)
+    let bin = std::env::var("C18_SERVER_BIN").unwrap_or_else(|_| SERVER_BIN.to_string());
+    let mut cmd = std::process::Command::new(&bin);
     cmd.current_dir(&dir)
         .env_clear()
         .env("PATH", std::env::var("PATH").unwrap_or_default())
@@ -197,10 +198,10 @@ pub fn spawn_server(root: &Path, idx: usize, attempt: usize) -> Result<Proc, Str
             Ok(())
         });
     }
-    let child = cmd.spawn().map_err(|e| format!("spawn {}: {}", SERVER_BIN, e))?;
+    let child = cmd.spawn().map_err(|e| format!("spawn {}: {}", bin, e))?;
     let pid = child.id() as i32;
     CHILD_PIDS.lock().unwrap().push(pid);
-    Ok(Proc { pid, dir, console_port: ports[2], sdk_port: ports[0], grpc_port: ports[1], child })
+    Ok(Proc { pid, dir, console_port: ports[2], grpc_port: ports[1], child })
 }
 
 impl Proc {
